@@ -308,6 +308,22 @@ def expected(kind, pre, ln):
             ck, skip = call_kind(call)
             if j >= len(outs):
                 return None, "iter_mut produced fewer outputs than calls"
+            if outs[j] == "gone":
+                j += 1
+                continue
+            if ck == "z":
+                e, j = parse_opt_e(outs, j + 1)
+                want = order[b - 1] if b > f else None
+                if (e[0] if e else None) != want:
+                    return None, "iter_mut last() = %s, the last element due is %s" % (e, want)
+                f = b
+                continue
+            if ck == "c":
+                if int(outs[j + 1]) != b - f:
+                    return None, "iter_mut count() = %s with %d remaining" % (outs[j + 1], b - f)
+                j += 2
+                f = b
+                continue
             if outs[j] == "s":
                 e, j = parse_opt_e(outs, j + 1)
                 if b - f <= skip:
@@ -377,7 +393,7 @@ def expected(kind, pre, ln):
             return None, None
         return c, None
     if op == "append":
-        es, _ = entries(a, 0)
+        es, _ = entries(a, 1)
         o = {}
         for (k, pl, p) in es:
             o[k] = (o[k][0], p) if k in o else (pl, p)
@@ -492,7 +508,6 @@ def j_cost(kind, pre, ln):
         es, _ = entries(ln.args, 2)
         bound = max(c * m, len(es) * (3 * lg(m) if pq else 8 * lg(m) + 8))
     elif op == "append":
-        es, _ = entries(ln.args, 0)
         bound = c * m      # building the other queue is outside the measured window
     if bound is not None and dt > bound:
         return "%s on %d elements performed %d comparisons; the proved bound is %d" % (op, n, dt, bound)
@@ -523,10 +538,31 @@ def j_sorted(kind, pre, ln):
         yielded = set()
         i = 0
         calls = ln.args[1:]
+        gone = False
         for call in calls:
             ck, skip = call_kind(call)
             if i >= len(t):
                 return "fewer outputs than calls"
+            if gone:
+                i += 1
+                continue
+            if ck == "z":
+                e, i = parse_opt_e(t, i + 1)
+                gone = True
+                if not remp:
+                    if e is not None:
+                        return "sorted iterator last() = %s on an exhausted iterator" % (e,)
+                    continue
+                want = remp[0] if kind == "pq" else remp[-1]     # the element a front-to-back traversal reaches last
+                if e is None or c.get(e[0]) != (e[1], e[2]) or e[0] in yielded or e[2] != want:
+                    return "sorted iterator last() = %s, the last element due has priority %d" % (e, want)
+                continue
+            if ck == "c":
+                gone = True
+                if int(t[i + 1]) != len(remp):
+                    return "sorted iterator count() = %s with %d remaining" % (t[i + 1], len(remp))
+                i += 2
+                continue
             if ck in ("f", "b"):
                 if t[i] != "s":
                     return "sorted iterator answered %s to an advancing call" % t[i]
@@ -564,7 +600,9 @@ def j_sorted(kind, pre, ln):
 
 
 def call_kind(c):
-    """('f'|'b'|'l'|'h', skip)"""
+    """('f'|'b'|'l'|'h'|'z'|'c', skip)"""
+    if c in ("z", "c"):
+        return c, 0
     if c[0] == "n":
         return "f", int(c[1:])
     if c[0] == "m":
@@ -586,11 +624,26 @@ def j_iters(kind, pre, ln):
     t = ln.res.split()
     calls = ln.args[1:] if ln.op != "drain" else ln.args[2:]
     i = 0
+    gone = False
     for call in calls:
         ck, skip = call_kind(call)
         if i >= len(t):
             return "fewer outputs than calls"
-        if ck in ("f", "b"):
+        if gone:
+            i += 1      # "gone": the iterator was consumed by last()/count()
+            continue
+        if ck == "z":
+            e, i = parse_opt_e(t, i + 1)
+            want = order[b - 1] if b > f else None
+            if e != want:
+                return "%s last() = %s, expected %s" % (ln.op, e, want)
+            gone = True
+        elif ck == "c":
+            if int(t[i + 1]) != b - f:
+                return "%s count() = %s with %d remaining" % (ln.op, t[i + 1], b - f)
+            i += 2
+            gone = True
+        elif ck in ("f", "b"):
             if t[i] != "s":
                 return "%s answered %s to an advancing call" % (ln.op, t[i])
             e, i = parse_opt_e(t, i + 1)
